@@ -14,6 +14,7 @@ Definition targets (g : graph) (o : op) (x : N) : Prop :=
   | ONodeRemoveNs n s => In x (first_neighbor g n RHas CNS) /\ name_of g x = s
   | ODisconnect _ i => get_peers_typed g i T_ServicePort = Some [x]
   | OUnpeer a b => exists xy, unpeer_ends g a b = Some [xy] /\ (x = fst xy \/ x = snd xy)
+  | OUnpeer6 a b => exists xy, In xy (unpeer_pairs g a b) /\ (x = fst xy \/ x = snd xy)
   | ORemoveInterface s nm => In x (cpn g s) /\ name_of g x = nm
   | ORemoveChild p nm => In x (cpn g p) /\ name_of g x = nm
   | OPrune => False
@@ -124,7 +125,44 @@ Proof.
   apply (del_by_name_tail CNode nm remove_node_graph s1 s' x Inv_remove_node_graph del_remove_node_graph C1 E Hx).
 Qed.
 
+Lemma del_remove_if_there c s s' :
+  cons g0 s -> class_of g0 c = CCP -> remove_if_there c s = (inl tt, s') -> In c (snd s').
+Proof.
+  intros C Hc E. unfold remove_if_there in E.
+  apply bind_ok in E. destruct E as [b [s1 [E1 E]]]. apply get_ok in E1. destruct E1 as [-> ->].
+  destruct (has_node (fst s) c && cls_eqb (class_of (fst s) c) CCP) eqn:Eb.
+  - apply (del_remove_cp c true s s' C E).
+  - apply ret_ok in E. destruct E as [_ ->].
+    destruct (in_dec N.eq_dec c (snd s)) as [Hd|Hd]; [exact Hd|]. exfalso.
+    assert (Hm : memN c (snd s) = false) by (apply memN_false; exact Hd).
+    rewrite C, has_node_restrict, Hm, (class_of_restrict _ _ _ Hm), Hc in Eb. simpl in Eb.
+    unfold has_node, class_of in *. destruct (find_node g0 c); discriminate.
+Qed.
+
+Lemma del_unpeer6_loop l s s' :
+  cons g0 s -> (forall c, In c l -> class_of g0 c = CCP) ->
+  for_each_set remove_if_there l s = (inl tt, s') -> cons g0 s' /\ forall c, In c l -> In c (snd s').
+Proof.
+  intros C Hl E. apply for_each_set_ok in E.
+  apply (for_each_ok_all remove_if_there (cons g0) (fun c t => In c (snd t)) l) with (s := s); [| |exact C|exact E].
+  - intros c t1 t2 Hc C1 Et. split; [apply (cons_to _ _ _ _ (Inv_remove_if_there c) C1 Et)|].
+    apply (del_remove_if_there c t1 t2 C1 (Hl c Hc) Et).
+  - intros c y t1 t2 _ C1 Hin Et. apply (ext_to _ _ _ _ c (Inv_remove_if_there y) C1 Et Hin).
+Qed.
+
 End Top.
+
+Lemma unpeer_pairs_class g a b xy : In xy (unpeer_pairs g a b) -> class_of g (fst xy) = CCP /\ class_of g (snd xy) = CCP.
+Proof.
+  unfold unpeer_pairs. intros H. apply in_flat_map in H. destruct H as [x [Hx H]].
+  destruct (N.eqb (type_of g x) T_ServicePort); [|destruct H].
+  apply in_flat_map in H. destruct H as [y [Hy H]].
+  destruct (N.eqb (type_of g y) T_ServicePort && list_eqb8 N.eqb (first_neighbor g y RConnects CNS) [b]); [|destruct H].
+  destruct H as [<-|[]]. simpl. split.
+  - apply first_neighbor_In in Hx. tauto.
+  - apply (peer_cps_class g (g, []) x y (cons_init g)). exact Hy.
+Qed.
+
 
 Lemma then_ret_ok {A B} (m : M A) (v : B) s r s' :
   bind m (fun _ => ret v) s = (inl r, s') -> exists x, m s = (inl x, s').
@@ -220,6 +258,23 @@ Proof.
     destruct Hx as [->| ->].
     + apply (ext_to g _ _ _ _ _ (Inv_remove_cp _ _) C1 E2). apply (del_remove_cp g _ true _ _ C0 E1).
     + apply (del_remove_cp g _ true _ _ C1 E2).
+  - (* unpeer, C08-6 *)
+    apply bind_ok in E. destruct E as [cc [s1 [E E2]]]. apply ret_ok in E2. destruct E2 as [_ E2]. subst s1.
+    unfold api_unpeer6 in E.
+    apply bind_ok in E. destruct E as [x0 [s1 [E1 E]]]. apply need_node_ok in E1. destruct E1 as [_ ->].
+    apply bind_ok in E. destruct E as [[] [s1 [E1 E]]]. apply guard_ok in E1. destruct E1 as [_ ->].
+    apply bind_ok in E. destruct E as [ps [s1 [E1 E]]]. apply get_ok in E1. destruct E1 as [-> ->].
+    simpl in E. destruct Hx as [xy [Hxy Hx]].
+    destruct (unpeer_pairs g a b) as [|p0 ps'] eqn:U; [destruct Hxy|].
+    apply bind_ok in E. destruct E as [[] [s1 [E1 E]]]. apply ret_ok in E. destruct E as [_ E]. rewrite <- E in *.
+    assert (Hcls : forall c, In c (unpeer6_ends (p0 :: ps')) -> class_of g c = CCP).
+    { intros c Hc. unfold unpeer6_ends in Hc. rewrite dedup_In, in_app_iff, !in_map_iff in Hc.
+      destruct Hc as [[q [Eq Hq]]|[q [Eq Hq]]]; subst c;
+        (assert (Hq' : In q (unpeer_pairs g a b)) by (rewrite U; exact Hq));
+        destruct (unpeer_pairs_class g a b q Hq') as [A B]; assumption. }
+    destruct (del_unpeer6_loop g _ _ _ (cons_init g) Hcls E1) as [_ Hall].
+    apply Hall. unfold unpeer6_ends. rewrite dedup_In, in_app_iff, !in_map_iff.
+    destruct Hx as [->| ->]; [left | right]; exists xy; auto.
   - (* remove_interface *)
     apply bind_ok in E. destruct E as [c [s1 [E E2]]]. apply ret_ok in E2. destruct E2 as [_ E2]. subst s1.
     unfold api_remove_interface in E.
